@@ -1,10 +1,19 @@
-import FormulaicVerif.Spec.Variables
-/-! Helper lemmas for C17: evaluation depends only on the free names. Not obligations. -/
+import FormulaicVerif.Proofs.C17Bfs
+/-! Helper lemmas for C17: evaluation depends only on the free names; an unbound name in strict
+position makes it fail; a `NameError` names an unbound free name. Not obligations. -/
 namespace FormulaicVerif.Proofs.C17
 open FormulaicVerif.Model.Variables FormulaicVerif.Spec.Variables
 variable {ν : Type}
 
 /-! ### coincidence -/
+theorem bindEnv_congr (T : List String) (loc : List (String × ν)) (ρ ρ' : String → Option ν) (xs : List String)
+    (h : ∀ id ∈ without T xs, ρ id = ρ' id) : ∀ id ∈ xs, bindEnv T loc ρ id = bindEnv T loc ρ' id := by
+  intro id hid
+  simp only [bindEnv]
+  cases hc : T.contains id with
+  | true => simp
+  | false => simpa using h id ((mem_without_iff T xs id).2 ⟨hid, hc⟩)
+
 mutual
 theorem eval_congr (ops : Ops ν) (ρ ρ' : String → Option ν) :
     ∀ (e : Expr), (∀ id ∈ freeNames e, ρ id = ρ' id) → eval ops ρ e = eval ops ρ' e
@@ -29,6 +38,25 @@ theorem eval_congr (ops : Ops ν) (ρ ρ' : String → Option ν) :
       eval_congr ops ρ ρ' i (fun id hi => h id (by simp [freeNames, hi]))]
   | .seq k es, h => by
     simp only [eval, evalList_congr ops ρ ρ' es (fun id hi => h id (by simpa [freeNames] using hi))]
+  | .lambda ps ds body, h => by
+    have hb : ∀ b, eval ops (bindEnv ps b ρ) body = eval ops (bindEnv ps b ρ') body := fun b =>
+      eval_congr ops _ _ body (bindEnv_congr ps b ρ ρ' _ (fun id hi => h id (by simp [freeNames, hi])))
+    simp only [eval, evalList_congr ops ρ ρ' ds (fun id hi => h id (by simp [freeNames, hi])), hb]
+  | .comp k elts [], h => by simp only [eval]
+  | .comp k elts (.mk ts it ifs :: gs), h => by
+    have hT : gensTargets (.mk ts it ifs :: gs) = ts ++ gensTargets gs := rfl
+    simp only [freeNames, freeNamesGens, hT, if_true] at h
+    have h1 := eval_congr ops ρ ρ' it (fun id hi => h id (by simp [hi]))
+    have h2 : ∀ loc, evalConds ops (bindEnv (ts ++ gensTargets gs) loc ρ) ifs
+        = evalConds ops (bindEnv (ts ++ gensTargets gs) loc ρ') ifs := fun loc =>
+      evalConds_congr ops _ _ ifs (bindEnv_congr _ loc ρ ρ' _ (fun id hi => h id (by simp [hi])))
+    have h3 : ∀ loc, evalList ops (bindEnv (ts ++ gensTargets gs) loc ρ) elts
+        = evalList ops (bindEnv (ts ++ gensTargets gs) loc ρ') elts := fun loc =>
+      evalList_congr ops _ _ elts (bindEnv_congr _ loc ρ ρ' _ (fun id hi => h id (by simp [hi])))
+    have h4 : ∀ loc k, evalGens ops (ts ++ gensTargets gs) ρ loc gs k
+        = evalGens ops (ts ++ gensTargets gs) ρ' loc gs k := fun loc k =>
+      evalGens_congr ops _ ρ ρ' gs (fun id hi => h id (by simp [hi])) loc k
+    simp only [eval, h1, h2, h3, h4]
 theorem evalList_congr (ops : Ops ν) (ρ ρ' : String → Option ν) :
     ∀ (es : List Expr), (∀ id ∈ freeNamesList es, ρ id = ρ' id) → evalList ops ρ es = evalList ops ρ' es
   | [], _ => by simp only [evalList]
@@ -43,25 +71,144 @@ theorem evalKws_congr (ops : Ops ν) (ρ ρ' : String → Option ν) :
     simp only [evalKws,
       eval_congr ops ρ ρ' k.2 (fun id hi => h id (by simp [freeNamesKws, hi])),
       evalKws_congr ops ρ ρ' ks (fun id hi => h id (by simp [freeNamesKws, hi]))]
+theorem evalConds_congr (ops : Ops ν) (ρ ρ' : String → Option ν) :
+    ∀ (cs : List Expr), (∀ id ∈ freeNamesList cs, ρ id = ρ' id) → evalConds ops ρ cs = evalConds ops ρ' cs
+  | [], _ => by simp only [evalConds]
+  | c :: cs, h => by
+    simp only [evalConds,
+      eval_congr ops ρ ρ' c (fun id hi => h id (by simp [freeNamesList, hi])),
+      evalConds_congr ops ρ ρ' cs (fun id hi => h id (by simp [freeNamesList, hi]))]
+theorem evalGens_congr (ops : Ops ν) (T : List String) (ρ ρ' : String → Option ν) :
+    ∀ (gs : List Gen), (∀ id ∈ freeNamesGens T false gs, ρ id = ρ' id) →
+      ∀ loc k, evalGens ops T ρ loc gs k = evalGens ops T ρ' loc gs k
+  | [], _, _, _ => by simp only [evalGens]
+  | .mk ts it ifs :: gs, h, loc, k => by
+    simp only [freeNamesGens, Bool.false_eq_true, if_false] at h
+    have h1 := eval_congr ops _ _ it (bindEnv_congr T loc ρ ρ' _ (fun id hi => h id (by simp [hi])))
+    have h2 : ∀ loc', evalConds ops (bindEnv T loc' ρ) ifs = evalConds ops (bindEnv T loc' ρ') ifs := fun loc' =>
+      evalConds_congr ops _ _ ifs (bindEnv_congr T loc' ρ ρ' _ (fun id hi => h id (by simp [hi])))
+    have h3 : ∀ loc', evalGens ops T ρ loc' gs k = evalGens ops T ρ' loc' gs k := fun loc' =>
+      evalGens_congr ops T ρ ρ' gs (fun id hi => h id (by simp [hi])) loc' k
+    simp only [evalGens, h1, h2, h3]
 end
 
-/-! ### an unbound name makes the evaluation fail -/
+/-! ### loops and scopes -/
 def Fails {ε α : Type} (r : Except ε α) : Prop := ∃ e, r = .error e
 
+theorem map_error {α β : Type} (r : Except EvalErr α) (f : α → β) (e : EvalErr) :
+    r.map f = .error e ↔ r = .error e := by
+  cases r <;> simp [Except.map]
+
+theorem retag_nameError {α : Type} (T : List String) (r : Except EvalErr α) (x : String)
+    (h : retag T r = .error (.nameError x)) : r = .error (.nameError x) ∧ T.contains x = false := by
+  cases r with
+  | ok v => simp [retag] at h
+  | error e =>
+    cases e with
+    | nameError y =>
+      simp only [retag] at h
+      cases hc : T.contains y with
+      | true => rw [hc] at h; simp at h
+      | false =>
+        rw [hc] at h
+        simp only [Bool.false_eq_true, if_false, Except.error.injEq, EvalErr.nameError.injEq] at h
+        subst h; exact ⟨rfl, hc⟩
+    | unboundLocal y => simp [retag] at h
+    | other w => simp [retag] at h
+
+theorem forItems_error (items : List ν) (body : ν → Except EvalErr (List ν)) (e : EvalErr)
+    (h : forItems items body = .error e) : ∃ x ∈ items, body x = .error e := by
+  induction items with
+  | nil => simp [forItems] at h
+  | cons x xs ih =>
+    simp only [forItems] at h
+    cases hb : body x with
+    | error e' =>
+      rw [hb] at h
+      have : e' = e := by simpa using h
+      subst this; exact ⟨x, by simp, hb⟩
+    | ok rs =>
+      rw [hb] at h
+      cases hr : forItems xs body with
+      | error e' =>
+        rw [hr] at h
+        have : e' = e := by simpa using h
+        subst this
+        obtain ⟨y, hy, hby⟩ := ih hr
+        exact ⟨y, by simp [hy], hby⟩
+      | ok rest => rw [hr] at h; cases h
+
+theorem liftOp_other (r : Except String ν) (e : EvalErr) (h : liftOp r = .error e) : ∃ w, e = .other w := by
+  cases r with
+  | ok v => simp [liftOp] at h
+  | error w => simp only [liftOp, Except.error.injEq] at h; exact ⟨w, h.symm⟩
+
+theorem bindTargets_other (ops : Ops ν) (ts : List String) (x : ν) (e : EvalErr)
+    (h : bindTargets ops ts x = .error e) : ∃ w, e = .other w := by
+  unfold bindTargets at h
+  split at h
+  · cases h
+  · cases hu : liftOp (ops.unpack ts.length x) with
+    | error e' =>
+      rw [hu] at h
+      have : e' = e := by simpa using h
+      subst this; exact liftOp_other _ _ hu
+    | ok vs =>
+      rw [hu] at h
+      simp only at h
+      split at h
+      · cases h
+      · simp only [Except.error.injEq] at h; exact ⟨_, h.symm⟩
+
+/-- where an error of one `for` clause comes from -/
+theorem genLoop_error (ops : Ops ν) (ts : List String) (loc : List (String × ν)) (itv : ν)
+    (conds : List (String × ν) → Except EvalErr Bool)
+    (rest : List (String × ν) → Except EvalErr (List ν)) (e : EvalErr)
+    (h : genLoop ops ts loc itv conds rest = .error e) :
+    (∃ w, e = .other w) ∨ (∃ l, conds l = .error e) ∨ (∃ l, rest l = .error e) := by
+  simp only [genLoop] at h
+  cases hi : liftOp (ops.iter itv) with
+  | error e' =>
+    rw [hi] at h
+    have : e' = e := by simpa using h
+    subst this; exact Or.inl (liftOp_other _ _ hi)
+  | ok items =>
+    rw [hi] at h
+    obtain ⟨x, _, hx⟩ := forItems_error _ _ _ h
+    cases hb : bindTargets ops ts x with
+    | error e' =>
+      rw [hb] at hx
+      have : e' = e := by simpa using hx
+      subst this; exact Or.inl (bindTargets_other ops ts x _ hb)
+    | ok bs =>
+      rw [hb] at hx
+      simp only at hx
+      cases hc : conds (bs ++ loc) with
+      | error e' =>
+        rw [hc] at hx
+        have : e' = e := by simpa using hx
+        subst this; exact Or.inr (Or.inl ⟨_, hc⟩)
+      | ok t =>
+        rw [hc] at hx
+        cases t with
+        | false => simp at hx
+        | true => exact Or.inr (Or.inr ⟨_, hx⟩)
+
+/-! ### an unbound name in strict position makes the evaluation fail -/
 mutual
 theorem eval_unbound (ops : Ops ν) (ρ : String → Option ν) (x : String) (hx : ρ x = none) :
-    ∀ (e : Expr), x ∈ freeNames e → Fails (eval ops ρ e)
+    ∀ (e : Expr), x ∈ strictNames e → Fails (eval ops ρ e)
   | .name id, h => by
-    have : x = id := by simpa [freeNames] using h
+    have : x = id := by simpa [strictNames] using h
     subst this
     exact ⟨.nameError x, by simp only [eval, hx]⟩
-  | .const _, h => by simp [freeNames] at h
+  | .const _, h => by simp [strictNames] at h
   | .attr v a, h => by
-    obtain ⟨e, he⟩ := eval_unbound ops ρ x hx v (by simpa [freeNames] using h)
+    obtain ⟨e, he⟩ := eval_unbound ops ρ x hx v (by simpa [strictNames] using h)
     exact ⟨e, by simp only [eval, he]⟩
   | .call f args kws, h => by
-    have h' : x ∈ freeNames f ∨ x ∈ freeNamesList args ∨ x ∈ freeNamesKws kws := by
-      simpa [freeNames, or_assoc] using h
+    have h' : x ∈ strictNames f ∨ x ∈ strictNamesList args ∨ x ∈ strictNamesKws kws := by
+      simpa [strictNames, or_assoc] using h
     cases h1 : eval ops ρ f with
     | error e => exact ⟨e, by simp only [eval, h1]⟩
     | ok fv =>
@@ -77,10 +224,10 @@ theorem eval_unbound (ops : Ops ν) (ρ : String → Option ν) (x : String) (hx
           · obtain ⟨e, he⟩ := evalList_unbound ops ρ x hx args c2; rw [h2] at he; cases he
           · obtain ⟨e, he⟩ := evalKws_unbound ops ρ x hx kws c3; rw [h3] at he; cases he
   | .unop o y, h => by
-    obtain ⟨e, he⟩ := eval_unbound ops ρ x hx y (by simpa [freeNames] using h)
+    obtain ⟨e, he⟩ := eval_unbound ops ρ x hx y (by simpa [strictNames] using h)
     exact ⟨e, by simp only [eval, he]⟩
   | .binop o l r, h => by
-    have h' : x ∈ freeNames l ∨ x ∈ freeNames r := by simpa [freeNames] using h
+    have h' : x ∈ strictNames l ∨ x ∈ strictNames r := by simpa [strictNames] using h
     cases h1 : eval ops ρ l with
     | error e => exact ⟨e, by simp only [eval, h1]⟩
     | ok lv =>
@@ -92,7 +239,7 @@ theorem eval_unbound (ops : Ops ν) (ρ : String → Option ν) (x : String) (hx
         · obtain ⟨e, he⟩ := eval_unbound ops ρ x hx l c1; rw [h1] at he; cases he
         · obtain ⟨e, he⟩ := eval_unbound ops ρ x hx r c2; rw [h2] at he; cases he
   | .subscript v i, h => by
-    have h' : x ∈ freeNames v ∨ x ∈ freeNames i := by simpa [freeNames] using h
+    have h' : x ∈ strictNames v ∨ x ∈ strictNames i := by simpa [strictNames] using h
     cases h1 : eval ops ρ v with
     | error e => exact ⟨e, by simp only [eval, h1]⟩
     | ok lv =>
@@ -104,13 +251,20 @@ theorem eval_unbound (ops : Ops ν) (ρ : String → Option ν) (x : String) (hx
         · obtain ⟨e, he⟩ := eval_unbound ops ρ x hx v c1; rw [h1] at he; cases he
         · obtain ⟨e, he⟩ := eval_unbound ops ρ x hx i c2; rw [h2] at he; cases he
   | .seq k es, h => by
-    obtain ⟨e, he⟩ := evalList_unbound ops ρ x hx es (by simpa [freeNames] using h)
+    obtain ⟨e, he⟩ := evalList_unbound ops ρ x hx es (by simpa [strictNames] using h)
+    exact ⟨e, by simp only [eval, he]⟩
+  | .lambda ps ds body, h => by
+    obtain ⟨e, he⟩ := evalList_unbound ops ρ x hx ds (by simpa [strictNames] using h)
+    exact ⟨e, by simp only [eval, he]⟩
+  | .comp k elts [], h => by simp [strictNames] at h
+  | .comp k elts (.mk ts it ifs :: gs), h => by
+    obtain ⟨e, he⟩ := eval_unbound ops ρ x hx it (by simpa [strictNames] using h)
     exact ⟨e, by simp only [eval, he]⟩
 theorem evalList_unbound (ops : Ops ν) (ρ : String → Option ν) (x : String) (hx : ρ x = none) :
-    ∀ (es : List Expr), x ∈ freeNamesList es → Fails (evalList ops ρ es)
-  | [], h => by simp [freeNamesList] at h
+    ∀ (es : List Expr), x ∈ strictNamesList es → Fails (evalList ops ρ es)
+  | [], h => by simp [strictNamesList] at h
   | e :: es, h => by
-    have h' : x ∈ freeNames e ∨ x ∈ freeNamesList es := by simpa [freeNamesList] using h
+    have h' : x ∈ strictNames e ∨ x ∈ strictNamesList es := by simpa [strictNamesList] using h
     cases h1 : eval ops ρ e with
     | error e' => exact ⟨e', by simp only [evalList, h1]⟩
     | ok v =>
@@ -122,10 +276,10 @@ theorem evalList_unbound (ops : Ops ν) (ρ : String → Option ν) (x : String)
         · obtain ⟨e', he⟩ := eval_unbound ops ρ x hx e c1; rw [h1] at he; cases he
         · obtain ⟨e', he⟩ := evalList_unbound ops ρ x hx es c2; rw [h2] at he; cases he
 theorem evalKws_unbound (ops : Ops ν) (ρ : String → Option ν) (x : String) (hx : ρ x = none) :
-    ∀ (ks : List (String × Expr)), x ∈ freeNamesKws ks → Fails (evalKws ops ρ ks)
-  | [], h => by simp [freeNamesKws] at h
+    ∀ (ks : List (String × Expr)), x ∈ strictNamesKws ks → Fails (evalKws ops ρ ks)
+  | [], h => by simp [strictNamesKws] at h
   | k :: ks, h => by
-    have h' : x ∈ freeNames k.2 ∨ x ∈ freeNamesKws ks := by simpa [freeNamesKws] using h
+    have h' : x ∈ strictNames k.2 ∨ x ∈ strictNamesKws ks := by simpa [strictNamesKws] using h
     cases h1 : eval ops ρ k.2 with
     | error e' => exact ⟨e', by simp only [evalKws, h1]⟩
     | ok v =>
@@ -140,6 +294,13 @@ end
 
 
 /-! ### a `NameError` names an unbound free name -/
+theorem bindEnv_free (T : List String) (loc : List (String × ν)) (ρ : String → Option ν) (x : String)
+    (hT : T.contains x = false) : bindEnv T loc ρ x = ρ x := by
+  simp only [bindEnv, hT]; rfl
+
+theorem mem_without_of (T xs : List String) (x : String) (h : x ∈ xs) (hT : T.contains x = false) :
+    x ∈ without T xs := (mem_without_iff T xs x).2 ⟨h, hT⟩
+
 theorem liftOp_ne_nameError (r : Except String ν) (id : String) : liftOp r ≠ .error (.nameError id) := by
   cases r <;> simp [liftOp]
 
@@ -251,6 +412,55 @@ theorem eval_nameError_sound (ops : Ops ν) (ρ : String → Option ν) (x : Str
       have := evalList_nameError_sound ops ρ x es h1
       exact ⟨by simp [freeNames, this.1], this.2⟩
     | ok vs => rw [h1] at h; cases h
+  | .lambda ps ds body, h => by
+    simp only [eval] at h
+    cases h1 : evalList ops ρ ds with
+    | error e =>
+      rw [h1] at h
+      have : e = .nameError x := by simpa using h
+      subst this
+      have := evalList_nameError_sound ops ρ x ds h1
+      exact ⟨by simp [freeNames, this.1], this.2⟩
+    | ok dvs => rw [h1] at h; cases h
+  | .comp k elts [], h => by simp [eval] at h
+  | .comp k elts (.mk ts it ifs :: gs), h => by
+    have hfn : freeNames (.comp k elts (.mk ts it ifs :: gs)) =
+        without (ts ++ gensTargets gs) (freeNamesList elts) ++
+          (freeNames it ++ without (ts ++ gensTargets gs) (freeNamesList ifs) ++
+            freeNamesGens (ts ++ gensTargets gs) false gs) := by
+      simp only [freeNames, freeNamesGens, gensTargets, if_true]
+    rw [hfn]
+    simp only [eval] at h
+    cases h1 : eval ops ρ it with
+    | error e =>
+      rw [h1] at h
+      have : e = .nameError x := by simpa using h
+      subst this
+      have := eval_nameError_sound ops ρ x it h1
+      exact ⟨by simp only [List.mem_append]; exact Or.inr (Or.inl (Or.inl this.1)), this.2⟩
+    | ok itv =>
+      rw [h1] at h
+      simp only at h
+      by_cases hk : (k == "GeneratorExp") = true
+      · rw [if_pos hk] at h; cases h
+      · rw [if_neg hk] at h
+        obtain ⟨h2, hT⟩ := retag_nameError _ _ _ ((map_error _ _ _).1 h)
+        rcases genLoop_error _ _ _ _ _ _ _ h2 with ⟨w, hw⟩ | ⟨l, hl⟩ | ⟨l, hl⟩
+        · cases hw
+        · have := evalConds_nameError_sound ops _ x ifs hl
+          rw [bindEnv_free _ _ _ _ hT] at this
+          exact ⟨by simp only [List.mem_append]; exact Or.inr (Or.inl (Or.inr (mem_without_of _ _ _ this.1 hT))), this.2⟩
+        · rcases evalGens_nameError_sound ops _ ρ x hT gs l _ hl with ⟨h3, h4⟩ | ⟨l', hl'⟩
+          · exact ⟨by simp only [List.mem_append]; exact Or.inr (Or.inr h3), h4⟩
+          · cases h5 : evalList ops (bindEnv (ts ++ gensTargets gs) l' ρ) elts with
+            | error e =>
+              rw [h5] at hl'
+              have : e = .nameError x := by simpa using hl'
+              subst this
+              have := evalList_nameError_sound ops _ x elts h5
+              rw [bindEnv_free _ _ _ _ hT] at this
+              exact ⟨by simp only [List.mem_append]; exact Or.inl (mem_without_of _ _ _ this.1 hT), this.2⟩
+            | ok vs => rw [h5] at hl'; cases hl'
 theorem evalList_nameError_sound (ops : Ops ν) (ρ : String → Option ν) (x : String) :
     ∀ (es : List Expr), evalList ops ρ es = .error (.nameError x) → x ∈ freeNamesList es ∧ ρ x = none
   | [], h => by simp [evalList] at h
@@ -295,70 +505,122 @@ theorem evalKws_nameError_sound (ops : Ops ν) (ρ : String → Option ν) (x : 
         have := evalKws_nameError_sound ops ρ x ks h2
         exact ⟨by simp [freeNamesKws, this.1], this.2⟩
       | ok vs => rw [h2] at h; cases h
+theorem evalConds_nameError_sound (ops : Ops ν) (ρ : String → Option ν) (x : String) :
+    ∀ (cs : List Expr), evalConds ops ρ cs = .error (.nameError x) → x ∈ freeNamesList cs ∧ ρ x = none
+  | [], h => by simp [evalConds] at h
+  | c :: cs, h => by
+    simp only [evalConds] at h
+    cases h1 : eval ops ρ c with
+    | error e' =>
+      rw [h1] at h
+      have : e' = .nameError x := by simpa using h
+      subst this
+      have := eval_nameError_sound ops ρ x c h1
+      exact ⟨by simp [freeNamesList, this.1], this.2⟩
+    | ok v =>
+      rw [h1] at h
+      simp only at h
+      cases h2 : liftOp (ops.truth v) with
+      | error e' =>
+        rw [h2] at h
+        have : e' = .nameError x := by simpa using h
+        subst this
+        exact absurd h2 (liftOp_ne_nameError _ _)
+      | ok t =>
+        rw [h2] at h
+        cases t with
+        | false => cases h
+        | true =>
+          have := evalConds_nameError_sound ops ρ x cs h
+          exact ⟨by simp [freeNamesList, this.1], this.2⟩
+theorem evalGens_nameError_sound (ops : Ops ν) (T : List String) (ρ : String → Option ν) (x : String)
+    (hT : T.contains x = false) :
+    ∀ (gs : List Gen) (loc : List (String × ν)) (k : List (String × ν) → Except EvalErr (List ν)),
+      evalGens ops T ρ loc gs k = .error (.nameError x) →
+      (x ∈ freeNamesGens T false gs ∧ ρ x = none) ∨ ∃ l, k l = .error (.nameError x)
+  | [], loc, k, h => Or.inr ⟨loc, by simpa [evalGens] using h⟩
+  | .mk ts it ifs :: gs, loc, k, h => by
+    simp only [evalGens] at h
+    cases h1 : eval ops (bindEnv T loc ρ) it with
+    | error e =>
+      rw [h1] at h
+      have : e = .nameError x := by simpa using h
+      subst this
+      have := eval_nameError_sound ops _ x it h1
+      rw [bindEnv_free _ _ _ _ hT] at this
+      exact Or.inl ⟨by
+        simp only [freeNamesGens, Bool.false_eq_true, if_false, List.mem_append]
+        exact Or.inl (Or.inl (mem_without_of _ _ _ this.1 hT)), this.2⟩
+    | ok itv =>
+      rw [h1] at h
+      rcases genLoop_error _ _ _ _ _ _ _ h with ⟨w, hw⟩ | ⟨l, hl⟩ | ⟨l, hl⟩
+      · cases hw
+      · have := evalConds_nameError_sound ops _ x ifs hl
+        rw [bindEnv_free _ _ _ _ hT] at this
+        exact Or.inl ⟨by
+          simp only [freeNamesGens, Bool.false_eq_true, if_false, List.mem_append]
+          exact Or.inl (Or.inr (mem_without_of _ _ _ this.1 hT)), this.2⟩
+      · rcases evalGens_nameError_sound ops T ρ x hT gs l k hl with ⟨h3, h4⟩ | h3
+        · exact Or.inl ⟨by
+            simp only [freeNamesGens, Bool.false_eq_true, if_false, List.mem_append]
+            exact Or.inr h3, h4⟩
+        · exact Or.inr h3
 end
 
-/-! ### with total operations, bound names suffice -/
-theorem liftOp_ok_of (r : Except String ν) (h : ∃ v, r = .ok v) : ∃ v, liftOp r = .ok v := by
-  obtain ⟨v, hv⟩ := h; exact ⟨v, by rw [hv]; rfl⟩
-
-mutual
-theorem eval_total (ops : Ops ν) (ht : OpsTotal ops) (ρ : String → Option ν) :
-    ∀ (e : Expr), (∀ id ∈ freeNames e, ρ id ≠ none) → ∃ v, eval ops ρ e = .ok v
-  | .name id, h => by
-    cases hr : ρ id with
-    | none => exact absurd hr (h id (by simp [freeNames]))
-    | some v => exact ⟨v, by simp only [eval, hr]⟩
-  | .const r, _ => ⟨ops.const r, by simp only [eval]⟩
-  | .attr v a, h => by
-    obtain ⟨x, hx⟩ := eval_total ops ht ρ v (fun id hi => h id (by simpa [freeNames] using hi))
-    obtain ⟨r, hr⟩ := liftOp_ok_of _ (ht.attr x a)
-    exact ⟨r, by simp only [eval, hx, hr]⟩
-  | .call f args kws, h => by
-    obtain ⟨fv, h1⟩ := eval_total ops ht ρ f (fun id hi => h id (by simp [freeNames, hi]))
-    obtain ⟨avs, h2⟩ := evalList_total ops ht ρ args (fun id hi => h id (by simp [freeNames, hi]))
-    obtain ⟨kvs, h3⟩ := evalKws_total ops ht ρ kws (fun id hi => h id (by simp [freeNames, hi]))
-    obtain ⟨r, hr⟩ := liftOp_ok_of _ (ht.call fv avs kvs)
-    exact ⟨r, by simp only [eval, h1, h2, h3, hr]⟩
-  | .unop o y, h => by
-    obtain ⟨x, hx⟩ := eval_total ops ht ρ y (fun id hi => h id (by simpa [freeNames] using hi))
-    obtain ⟨r, hr⟩ := liftOp_ok_of _ (ht.unop o x)
-    exact ⟨r, by simp only [eval, hx, hr]⟩
-  | .binop o l r, h => by
-    obtain ⟨lv, h1⟩ := eval_total ops ht ρ l (fun id hi => h id (by simp [freeNames, hi]))
-    obtain ⟨rv, h2⟩ := eval_total ops ht ρ r (fun id hi => h id (by simp [freeNames, hi]))
-    obtain ⟨x, hr⟩ := liftOp_ok_of _ (ht.binop o lv rv)
-    exact ⟨x, by simp only [eval, h1, h2, hr]⟩
-  | .subscript v i, h => by
-    obtain ⟨lv, h1⟩ := eval_total ops ht ρ v (fun id hi => h id (by simp [freeNames, hi]))
-    obtain ⟨rv, h2⟩ := eval_total ops ht ρ i (fun id hi => h id (by simp [freeNames, hi]))
-    obtain ⟨x, hr⟩ := liftOp_ok_of _ (ht.subscript lv rv)
-    exact ⟨x, by simp only [eval, h1, h2, hr]⟩
-  | .seq k es, h => by
-    obtain ⟨vs, h1⟩ := evalList_total ops ht ρ es (fun id hi => h id (by simpa [freeNames] using hi))
-    exact ⟨ops.seq k vs, by simp only [eval, h1]⟩
-theorem evalList_total (ops : Ops ν) (ht : OpsTotal ops) (ρ : String → Option ν) :
-    ∀ (es : List Expr), (∀ id ∈ freeNamesList es, ρ id ≠ none) → ∃ vs, evalList ops ρ es = .ok vs
-  | [], _ => ⟨[], by simp only [evalList]⟩
-  | e :: es, h => by
-    obtain ⟨v, h1⟩ := eval_total ops ht ρ e (fun id hi => h id (by simp [freeNamesList, hi]))
-    obtain ⟨vs, h2⟩ := evalList_total ops ht ρ es (fun id hi => h id (by simp [freeNamesList, hi]))
-    exact ⟨v :: vs, by simp only [evalList, h1, h2]⟩
-theorem evalKws_total (ops : Ops ν) (ht : OpsTotal ops) (ρ : String → Option ν) :
-    ∀ (ks : List (String × Expr)), (∀ id ∈ freeNamesKws ks, ρ id ≠ none) → ∃ vs, evalKws ops ρ ks = .ok vs
-  | [], _ => ⟨[], by simp only [evalKws]⟩
-  | k :: ks, h => by
-    obtain ⟨v, h1⟩ := eval_total ops ht ρ k.2 (fun id hi => h id (by simp [freeNamesKws, hi]))
-    obtain ⟨vs, h2⟩ := evalKws_total ops ht ρ ks (fun id hi => h id (by simp [freeNamesKws, hi]))
-    exact ⟨(k.1, v) :: vs, by simp only [evalKws, h1, h2]⟩
-end
-
-
-/-! ### with total operations every failure is a `NameError` -/
-def IsNameError (x : EvalErr) : Prop := ∃ id, x = .nameError id
-
+/-! ### with total operations every failure is a `NameError` (or an `UnboundLocalError`) -/
 theorem liftOp_total_not_error (r : Except String ν) (h : ∃ v, r = .ok v) (x : EvalErr) :
     liftOp r ≠ .error x := by
   obtain ⟨v, hv⟩ := h; rw [hv]; simp [liftOp]
+
+def IsNameError (x : EvalErr) : Prop := (∃ id, x = .nameError id) ∨ (∃ id, x = .unboundLocal id)
+
+theorem bindTargets_total (ops : Ops ν) (ht : OpsTotal ops) (ts : List String) (x : ν) :
+    ∃ bs, bindTargets ops ts x = .ok bs := by
+  unfold bindTargets
+  split
+  · exact ⟨_, rfl⟩
+  · obtain ⟨vs, hv, hl⟩ := ht.unpack ts.length x
+    simp [hv, liftOp, hl]
+
+theorem genLoop_error_total (ops : Ops ν) (ht : OpsTotal ops) (ts : List String) (loc : List (String × ν))
+    (itv : ν) (conds : List (String × ν) → Except EvalErr Bool)
+    (rest : List (String × ν) → Except EvalErr (List ν)) (e : EvalErr)
+    (h : genLoop ops ts loc itv conds rest = .error e) :
+    (∃ l, conds l = .error e) ∨ (∃ l, rest l = .error e) := by
+  simp only [genLoop] at h
+  obtain ⟨items, hi⟩ := ht.iter itv
+  simp only [hi, liftOp] at h
+  obtain ⟨x, _, hx⟩ := forItems_error _ _ _ h
+  obtain ⟨bs, hb⟩ := bindTargets_total ops ht ts x
+  rw [hb] at hx
+  simp only at hx
+  cases hc : conds (bs ++ loc) with
+  | error e' =>
+    rw [hc] at hx
+    have : e' = e := by simpa using hx
+    subst this; exact Or.inl ⟨_, hc⟩
+  | ok t =>
+    rw [hc] at hx
+    cases t with
+    | false => simp at hx
+    | true => exact Or.inr ⟨_, hx⟩
+
+theorem retag_error {α : Type} (T : List String) (r : Except EvalErr α) (e : EvalErr)
+    (h : retag T r = .error e) : ∃ e', r = .error e' ∧ (IsNameError e' → IsNameError e) := by
+  cases r with
+  | ok v => simp [retag] at h
+  | error e' =>
+    refine ⟨e', rfl, fun _ => ?_⟩
+    cases e' with
+    | nameError y =>
+      simp only [retag] at h
+      cases hc : T.contains y with
+      | true => rw [hc] at h; simp at h; exact Or.inr ⟨y, h.symm⟩
+      | false => rw [hc] at h; simp at h; exact Or.inl ⟨y, h.symm⟩
+    | unboundLocal y => simp [retag] at h; exact Or.inr ⟨y, h.symm⟩
+    | other w =>
+      rename_i hn
+      rcases hn with ⟨id, hid⟩ | ⟨id, hid⟩ <;> cases hid
 
 mutual
 theorem eval_total_err (ops : Ops ν) (ht : OpsTotal ops) (ρ : String → Option ν) (x : EvalErr) :
@@ -367,7 +629,7 @@ theorem eval_total_err (ops : Ops ν) (ht : OpsTotal ops) (ρ : String → Optio
     simp only [eval] at h
     cases hr : ρ id with
     | some v => rw [hr] at h; cases h
-    | none => rw [hr] at h; exact ⟨id, by simpa using h.symm⟩
+    | none => rw [hr] at h; exact Or.inl ⟨id, by simpa using h.symm⟩
   | .const _, h => by simp [eval] at h
   | .attr v a, h => by
     simp only [eval] at h
@@ -445,6 +707,39 @@ theorem eval_total_err (ops : Ops ν) (ht : OpsTotal ops) (ρ : String → Optio
       have : e = x := by simpa using h
       subst this; exact evalList_total_err ops ht ρ e es h1
     | ok vs => rw [h1] at h; cases h
+  | .lambda ps ds body, h => by
+    simp only [eval] at h
+    cases h1 : evalList ops ρ ds with
+    | error e =>
+      rw [h1] at h
+      have : e = x := by simpa using h
+      subst this; exact evalList_total_err ops ht ρ e ds h1
+    | ok dvs => rw [h1] at h; cases h
+  | .comp k elts [], h => by simp [eval] at h
+  | .comp k elts (.mk ts it ifs :: gs), h => by
+    simp only [eval] at h
+    cases h1 : eval ops ρ it with
+    | error e =>
+      rw [h1] at h
+      have : e = x := by simpa using h
+      subst this; exact eval_total_err ops ht ρ e it h1
+    | ok itv =>
+      rw [h1] at h
+      simp only at h
+      by_cases hk : (k == "GeneratorExp") = true
+      · rw [if_pos hk] at h; cases h
+      · rw [if_neg hk] at h
+        obtain ⟨e', h2, himp⟩ := retag_error _ _ _ ((map_error _ _ _).1 h)
+        apply himp
+        rcases genLoop_error_total ops ht _ _ _ _ _ _ h2 with ⟨l, hl⟩ | ⟨l, hl⟩
+        · exact evalConds_total_err ops ht _ e' ifs hl
+        · refine evalGens_total_err ops ht _ ρ e' gs l _ hl (fun l' e'' hl' => ?_)
+          cases h5 : evalList ops (bindEnv (ts ++ gensTargets gs) l' ρ) elts with
+          | error e3 =>
+            rw [h5] at hl'
+            have : e3 = e'' := by simpa using hl'
+            subst this; exact evalList_total_err ops ht _ e3 elts h5
+          | ok vs => rw [h5] at hl'; cases hl'
 theorem evalList_total_err (ops : Ops ν) (ht : OpsTotal ops) (ρ : String → Option ν) (x : EvalErr) :
     ∀ (es : List Expr), evalList ops ρ es = .error x → IsNameError x
   | [], h => by simp [evalList] at h
@@ -481,6 +776,159 @@ theorem evalKws_total_err (ops : Ops ν) (ht : OpsTotal ops) (ρ : String → Op
         have : e' = x := by simpa using h
         subst this; exact evalKws_total_err ops ht ρ e' ks h2
       | ok vs => rw [h2] at h; cases h
+theorem evalConds_total_err (ops : Ops ν) (ht : OpsTotal ops) (ρ : String → Option ν) (x : EvalErr) :
+    ∀ (cs : List Expr), evalConds ops ρ cs = .error x → IsNameError x
+  | [], h => by simp [evalConds] at h
+  | c :: cs, h => by
+    simp only [evalConds] at h
+    cases h1 : eval ops ρ c with
+    | error e' =>
+      rw [h1] at h
+      have : e' = x := by simpa using h
+      subst this; exact eval_total_err ops ht ρ e' c h1
+    | ok v =>
+      rw [h1] at h
+      simp only at h
+      obtain ⟨t, ht'⟩ := ht.truth v
+      simp only [ht', liftOp] at h
+      cases t with
+      | false => cases h
+      | true => exact evalConds_total_err ops ht ρ x cs h
+theorem evalGens_total_err (ops : Ops ν) (ht : OpsTotal ops) (T : List String) (ρ : String → Option ν)
+    (x : EvalErr) :
+    ∀ (gs : List Gen) (loc : List (String × ν)) (k : List (String × ν) → Except EvalErr (List ν)),
+      evalGens ops T ρ loc gs k = .error x → (∀ l e, k l = .error e → IsNameError e) → IsNameError x
+  | [], loc, k, h, hk => hk loc x (by simpa [evalGens] using h)
+  | .mk ts it ifs :: gs, loc, k, h, hk => by
+    simp only [evalGens] at h
+    cases h1 : eval ops (bindEnv T loc ρ) it with
+    | error e =>
+      rw [h1] at h
+      have : e = x := by simpa using h
+      subst this; exact eval_total_err ops ht _ e it h1
+    | ok itv =>
+      rw [h1] at h
+      rcases genLoop_error_total ops ht _ _ _ _ _ _ h with ⟨l, hl⟩ | ⟨l, hl⟩
+      · exact evalConds_total_err ops ht _ x ifs hl
+      · exact evalGens_total_err ops ht T ρ x gs l k hl hk
 end
+
+/-- with total operations, an evaluation in which every free name is bound succeeds — or reads a
+comprehension target before it is bound -/
+theorem eval_total (ops : Ops ν) (ht : OpsTotal ops) (ρ : String → Option ν) (e : Expr)
+    (h : ∀ id ∈ freeNames e, ρ id ≠ none) :
+    (∃ v, eval ops ρ e = .ok v) ∨ ∃ x, eval ops ρ e = .error (.unboundLocal x) := by
+  cases he : eval ops ρ e with
+  | ok v => exact Or.inl ⟨v, rfl⟩
+  | error err =>
+    rcases eval_total_err ops ht ρ err e he with ⟨id, hid⟩ | ⟨id, hid⟩
+    · subst hid
+      have := eval_nameError_sound ops ρ id e he
+      exact absurd this.2 (h id this.1)
+    · subst hid; exact Or.inr ⟨id, rfl⟩
+
+
+/-! ### strict positions -/
+mutual
+theorem strict_sub_free (x : String) : ∀ (e : Expr), x ∈ strictNames e → x ∈ freeNames e
+  | .name id, h => by simpa [strictNames, freeNames] using h
+  | .const _, h => by simp [strictNames] at h
+  | .attr v a, h => by
+    simp only [strictNames] at h; simp only [freeNames]; exact strict_sub_free x v h
+  | .call f args kws, h => by
+    simp only [strictNames, List.mem_append] at h
+    simp only [freeNames, List.mem_append]
+    rcases h with (h | h) | h
+    · exact Or.inl (Or.inl (strict_sub_free x f h))
+    · exact Or.inl (Or.inr (strictList_sub_free x args h))
+    · exact Or.inr (strictKws_sub_free x kws h)
+  | .unop _ y, h => by
+    simp only [strictNames] at h; simp only [freeNames]; exact strict_sub_free x y h
+  | .binop _ l r, h => by
+    simp only [strictNames, List.mem_append] at h
+    simp only [freeNames, List.mem_append]
+    rcases h with h | h
+    · exact Or.inl (strict_sub_free x l h)
+    · exact Or.inr (strict_sub_free x r h)
+  | .subscript v i, h => by
+    simp only [strictNames, List.mem_append] at h
+    simp only [freeNames, List.mem_append]
+    rcases h with h | h
+    · exact Or.inl (strict_sub_free x v h)
+    · exact Or.inr (strict_sub_free x i h)
+  | .seq _ es, h => by
+    simp only [strictNames] at h; simp only [freeNames]; exact strictList_sub_free x es h
+  | .lambda ps ds body, h => by
+    simp only [strictNames] at h
+    simp only [freeNames, List.mem_append]
+    exact Or.inl (strictList_sub_free x ds h)
+  | .comp k elts [], h => by simp [strictNames] at h
+  | .comp k elts (.mk ts it ifs :: gs), h => by
+    simp only [strictNames] at h
+    simp only [freeNames, freeNamesGens, if_true, List.mem_append]
+    exact Or.inr (Or.inl (Or.inl (strict_sub_free x it h)))
+theorem strictList_sub_free (x : String) : ∀ (es : List Expr), x ∈ strictNamesList es → x ∈ freeNamesList es
+  | [], h => by simp [strictNamesList] at h
+  | e :: es, h => by
+    simp only [strictNamesList, List.mem_append] at h
+    simp only [freeNamesList, List.mem_append]
+    rcases h with h | h
+    · exact Or.inl (strict_sub_free x e h)
+    · exact Or.inr (strictList_sub_free x es h)
+theorem strictKws_sub_free (x : String) :
+    ∀ (ks : List (String × Expr)), x ∈ strictNamesKws ks → x ∈ freeNamesKws ks
+  | [], h => by simp [strictNamesKws] at h
+  | k :: ks, h => by
+    simp only [strictNamesKws, List.mem_append] at h
+    simp only [freeNamesKws, List.mem_append]
+    rcases h with h | h
+    · exact Or.inl (strict_sub_free x k.2 h)
+    · exact Or.inr (strictKws_sub_free x ks h)
+end
+
+mutual
+/-- in the strict fragment every free name is in strict position -/
+theorem strict_eq_free : ∀ (e : Expr), noBinders e = true → strictNames e = freeNames e
+  | .name id, _ => rfl
+  | .const _, _ => rfl
+  | .attr v a, h => by
+    simp only [noBinders] at h; simp only [strictNames, freeNames, strict_eq_free v h]
+  | .call f args kws, h => by
+    simp only [noBinders, Bool.and_eq_true] at h
+    simp only [strictNames, freeNames, strict_eq_free f h.1.1, strictList_eq_free args h.1.2,
+      strictKws_eq_free kws h.2]
+  | .unop _ y, h => by
+    simp only [noBinders] at h; simp only [strictNames, freeNames, strict_eq_free y h]
+  | .binop _ l r, h => by
+    simp only [noBinders, Bool.and_eq_true] at h
+    simp only [strictNames, freeNames, strict_eq_free l h.1, strict_eq_free r h.2]
+  | .subscript v i, h => by
+    simp only [noBinders, Bool.and_eq_true] at h
+    simp only [strictNames, freeNames, strict_eq_free v h.1, strict_eq_free i h.2]
+  | .seq _ es, h => by
+    simp only [noBinders] at h; simp only [strictNames, freeNames, strictList_eq_free es h]
+  | .lambda _ _ _, h => by simp [noBinders] at h
+  | .comp _ _ _, h => by simp [noBinders] at h
+theorem strictList_eq_free : ∀ (es : List Expr), noBindersList es = true → strictNamesList es = freeNamesList es
+  | [], _ => rfl
+  | e :: es, h => by
+    simp only [noBindersList, Bool.and_eq_true] at h
+    simp only [strictNamesList, freeNamesList, strict_eq_free e h.1, strictList_eq_free es h.2]
+theorem strictKws_eq_free :
+    ∀ (ks : List (String × Expr)), noBindersKws ks = true → strictNamesKws ks = freeNamesKws ks
+  | [], _ => rfl
+  | k :: ks, h => by
+    simp only [noBindersKws, Bool.and_eq_true] at h
+    simp only [strictNamesKws, freeNamesKws, strict_eq_free k.2 h.1, strictKws_eq_free ks h.2]
+end
+
+/-- a target of a comprehension is free in it only through the first iterable -/
+theorem not_mem_freeNamesGens (T : List String) (x : String) (hx : T.contains x = true) :
+    ∀ (gs : List Gen), x ∉ freeNamesGens T false gs
+  | [] => by simp [freeNamesGens]
+  | .mk _ it ifs :: gs => by
+    simp only [freeNamesGens, Bool.false_eq_true, if_false, List.mem_append, mem_without_iff, hx]
+    have := not_mem_freeNamesGens T x hx gs
+    simp [this]
 
 end FormulaicVerif.Proofs.C17
